@@ -27,7 +27,7 @@ import threading as _rt
 
 SHORT = 0.05
 IDLE_ITERS = 3
-STEP_WALL_LIMIT = 20.0
+STEP_WALL_LIMIT = 120.0     # wall clock, generous: a loaded machine must never turn a slow step into a reported hang
 
 
 class Deadlock(Exception):
